@@ -129,6 +129,10 @@ func (f *Fakes) RoundTrip(r *http.Request) (*http.Response, error) {
 	if f.Hook != nil {
 		f.Hook(r.URL.String())
 	}
+	// a call made with a context that is over fails like http.Transport's
+	if err := r.Context().Err(); err != nil {
+		return nil, err
+	}
 	// the gateway queries different services concurrently
 	f.mu.Lock()
 	defer f.mu.Unlock()
@@ -490,6 +494,19 @@ func applyFault(out []interface{}, ft *Fault) ([]interface{}, bool) {
 		// data missing and an errors key that carries nothing
 		if m := el(); m != nil {
 			out[pos] = map[string]interface{}{"data": nil, "errors": []interface{}{}}
+			applied = true
+		}
+	case "errors-null1", "errors-null-nodata", "errors-null2-data":
+		// an errors list whose entries are all null (a failure signal: the list is not empty)
+		if m := el(); m != nil {
+			switch ft.Kind {
+			case "errors-null1":
+				out[pos] = map[string]interface{}{"data": nil, "errors": []interface{}{nil}}
+			case "errors-null-nodata":
+				out[pos] = map[string]interface{}{"errors": []interface{}{nil}}
+			default:
+				out[pos] = map[string]interface{}{"data": m["data"], "errors": []interface{}{nil, nil}}
+			}
 			applied = true
 		}
 	case "errors-empty-ok":
